@@ -18,6 +18,7 @@ Definition PR (st : Z) (prop : addr) (tot de ve vp mn ex : Z) : proposal :=
      p_proposer := prop; p_total := tot; p_dep_end := de; p_vote_end := ve;
      p_vp := vp; p_min := mn; p_exp := negb (ex =? 0) |}.
 Definition CFG := Build_config.
+Definition VS := Build_vside.
 
 Definition unitize {K} (l : list K) : list (K * unit) := map (fun k => (k, tt)) l.
 
@@ -42,7 +43,7 @@ Definition crecover (from to : addr) (x : csig) : option addr :=
 Inductive cop :=
 | CMigrate (from to : addr) (sg : option csig)      (* ValidateBasic + msg server: what a tx does *)
 | CMigrateSrv (from to : addr)                      (* the msg server alone *)
-| CEndBlock (t next : Z) (burns converts : list Z)
+| CEndBlock (t next : Z) (burns converts : list Z) (vs : vside)
 | CSubmit (a : addr) (amt : Z) (exp vp mind : Z)
 | CDeposit (a : addr) (pid amt : Z)
 | CVote (a : addr) (pid : Z)
@@ -80,7 +81,7 @@ Definition model_step (s : state) (o : cop) : outcome state :=
   match o with
   | CMigrate f t sg => migrate_tx csig crecover s f t sg
   | CMigrateSrv f t => migrate_account s f t
-  | CEndBlock t n b c => Ok (end_block t n b c s)
+  | CEndBlock t n b c vs => Ok (end_block t n b c vs s)
   | CSubmit a amt x vp m => submit_proposal a amt (negb (x =? 0)) vp m s
   | CDeposit a pid amt => add_deposit pid a amt s
   | CVote a pid => cast_vote a pid s
